@@ -1,5 +1,5 @@
 """C04: cancellation containment -- shields hold and the right scope absorbs (scope_tree.scn, clauses C04:*)."""
-from symx.harness import c14_thread, scope_tree
+from symx.harness import c14_thread, scope_tree, tg_scn
 from symx.vloop import STUBS as LOOP_STUBS
 
 NAME = "c04_contain"
@@ -90,7 +90,7 @@ def chain_step(sym, cov, D):
 
 MUST_REACH = MUST_REACH + ["A:cancelled-behind-shield", "A:effectively-cancelled-through-plain-ancestors",
                            "non-cancellation-exception-through-cancelled-scope", "cancellation-filtered-out-of-exception-group", "foreign-cancellation-through-cancelled-scope",
-                           "thread:check_cancelled-raised"]
+                           "thread:check_cancelled-raised", "group-shielded-after-enclosing-cancel-hit-its-children"]
 _units_b = units
 
 
@@ -111,6 +111,10 @@ def units(tier):  # noqa: F811
     for cos in (True, False):
         us.append({"name": "thread check_cancelled, caller in shielded scope, %s scope cancelled" % ("enclosing" if cos else "that"), "fn": c14_thread.scn, "budget_s": B,
                    "params": {"n": 1, "funcs": ["chk"], "cancel": 0, "shielded_caller": True, "cancel_outside_shield": cos, "T": 1, "J": 2}})
+    # a task group whose scope gets shielded AFTER an enclosing cancellation has already hit its children
+    for ch in ([("B", "soon")], [("C", "task"), ("R", "soon")]):
+        us.append({"name": "task group shielded after an enclosing cancel hit its children %s" % "+".join(b for b, _h in ch), "fn": tg_scn.scn, "budget_s": B,
+                   "params": {"props": [PROP], "children": ch, "body": "shield-toggle", "env": ("outer",), "T": 2, "J": 1}})
     us.append({"name": "D=4 cancel=3 cancel2=0 shield-at-1", "fn": scope_tree.scn, "budget_s": B,
                "params": {"props": [PROP], "D": 4, "cancel": 3, "cancel2": 0, "shields": (False, True, False, False), "T": 1, "J": 1, "post0": True}})
     return us
